@@ -78,6 +78,7 @@ for K in ("SPAKE2_A", "SPAKE2_B", "SPAKE2_Symmetric"):
     c.ensures("0 <= self.xy_scalar and self.xy_scalar < spec.gq(%s)" % G, name="scalar-range", tags="C04 C11 C01")
     c.ensures("len(result) == 1 + spec.esize(%s)" % G, name="len", tags="C03")
     c.ensures("spec.entropy_calls() == 1 and spec.entropy_only_via('GroupSpec.random_scalar')", name="entropy", tags="C11")
+    c.ensures("hasfield(self, 'xy_scalar') and hasfield(self, 'xy_elem') and hasfield(self, 'outbound_message')", name="fields-set", tags="C07 C01")
     c.ensures("self._started", name="started", tags="C07", on="both")
     c.ensures("self._finished == old(self._finished)", name="finished-unchanged", tags="C07", on="both")
     for n, e in MONO:
@@ -114,10 +115,68 @@ for K in ("SPAKE2_A", "SPAKE2_B", "SPAKE2_Symmetric"):
 
     # ---------------- serialize() ----------------
     c = REG.contract(Q + ".serialize")
-    c.params(self="obj:" + Q).returns("any").pure()
+    c.params(self="obj:" + Q).returns("jsonbytes:hashed_params=str,side=str,password=hexstr,xy_scalar=hexstr," + ("idS=hexstr" if role == "S" else "idA=hexstr,idB=hexstr")).pure()
     c.raises("SerializedTooEarly", "not self._started", name="too-early", tags="C07")
     c.raises("AttributeError", "self._started and not hasfield(self, 'xy_scalar')", name="no-scalar", tags="C07")
     c.ensures("spec.is_json_bytes(result)", name="ascii-json", tags="C08 C10")
     c.ensures("spec.json_dict(result) == spec.state_dict(self)", name="state", tags="C10 C08 C07")
     c.ensures("spec.entropy_calls() == 0", name="no-entropy", tags="C11 C08", on="both")
     c.canary("spec.json_dict(result)['xy_scalar'] == spec.hexl(spec.s2b(%s, self.xy_scalar + 1))" % G)
+
+
+    # ---------------- __init__ ----------------
+    c = REG.contract(Q + ".__init__")
+    if role == "S":
+        c.params(self="obj:" + Q, password="bytes", idSymmetric="bytes", params="obj:params._Params", entropy_f="entropy")
+        ids = [("idSymmetric", "idSymmetric")]
+    else:
+        c.params(self="obj:" + Q, password="bytes", idA="bytes", idB="bytes", params="obj:params._Params", entropy_f="entropy")
+        ids = [("idA", "idA"), ("idB", "idB")]
+    c.returns("none")
+    c.setup("fresh_self")
+    c.ensures("self.pw == password and self.params is params and self.entropy_f is entropy_f", name="fields", tags="C16 C01")
+    for f, a in ids:
+        c.ensures("self.%s == %s" % (f, a), name="id-" + f, tags="C16 C01 C08")
+    c.ensures("not self._started and not self._finished", name="fresh-flags", tags="C07")
+    c.ensures("not hasfield(self, 'xy_scalar') and not hasfield(self, 'outbound_message') and not hasfield(self, 'xy_elem')", name="no-secret-yet", tags="C07 C11")
+    c.ensures("spec.entropy_calls() == 0", name="no-entropy", tags="C11", on="both")
+    for n, e in INV:
+        c.ensures(e, name="inv:" + n, tags="C07 C08")
+
+    # ---------------- from_serialized() ----------------
+    c = REG.contract(Q + ".from_serialized")
+    own = "hashed_params=str,side=str,password=hexstr,xy_scalar=hexstr," + ("idS=hexstr" if role == "S" else "idA=hexstr,idB=hexstr")
+    other = "hashed_params=str,side=str,password=hexstr,xy_scalar=hexstr," + ("idS=hexstr" if role != "S" else "idA=hexstr,idB=hexstr")
+    c.params(klass="class:" + Q, data="jsonbytes:" + own, params="obj:params._Params").returns("obj:" + Q)
+    c.cases({"data": "jsonbytes:" + own}, {"data": "jsonbytes:" + other})
+    c.bind("d", "spec.json_dict(data)")
+    c.bind("g", "params.group")
+    # released format (C10): the xy_scalar field is the fixed-width encoding of a scalar in [0,q)
+    c.ghost(x0="int")
+    c.requires("0 <= x0 and x0 < spec.gq(params.group)")
+    c.requires("implies('xy_scalar' in spec.json_dict(data), spec.json_dict(data)['xy_scalar'] == spec.hexl(spec.s2b(params.group, x0)))")
+    own_keys = "('idS' in d)" if role == "S" else "('idA' in d)"
+    side_ok = "spec.ascii_bytes(d['side']) == spec.side(klass)"
+    if role == "S":
+        c.raises("WrongSideSerialized", "not (%s)" % side_ok, name="wrong-side", tags="C09")
+        c.raises("KeyError", "(%s) and not %s" % (side_ok, own_keys), name="foreign-keys", tags="C09")
+    else:
+        c.raises("KeyError", "not %s" % own_keys, name="foreign-keys", tags="C09")
+        c.raises("WrongSideSerialized", "%s and not (%s)" % (own_keys, side_ok), name="wrong-side", tags="C09")
+    fp_ok = "d['hashed_params'] == spec.fingerprint(klass, params)"
+    c.raises("WrongGroupError", "%s and (%s) and not (%s)" % (own_keys, side_ok, fp_ok), name="wrong-params", tags="C09")
+    c.raises("Exception", "%s and (%s) and (%s) and not spec.b2s_ok(g, spec.unhex(d['xy_scalar']))" % (own_keys, side_ok, fp_ok), name="bad-scalar", tags="C10")
+    c.ensures("result.pw == spec.unhex(d['password'])", name="pw", tags="C08 C10")
+    if role == "S":
+        c.ensures("result.idSymmetric == spec.unhex(d['idS'])", name="ids", tags="C08 C10")
+    else:
+        c.ensures("result.idA == spec.unhex(d['idA']) and result.idB == spec.unhex(d['idB'])", name="ids", tags="C08 C10")
+    c.ensures("result.params is params", name="params", tags="C08 C09")
+    c.ensures("result._started and not result._finished", name="flags", tags="C07 C08")
+    c.ensures("hasfield(result, 'xy_scalar') and hasfield(result, 'xy_elem') and hasfield(result, 'outbound_message') and not hasfield(result, 'inbound_message')", name="fields-set", tags="C08 C07")
+    c.ensures("result.xy_scalar == spec.b2s(g, spec.unhex(d['xy_scalar']))", name="scalar", tags="C08 C10")
+    c.ensures("result.outbound_message == spec.enc(g, spec.msg_elem(result, result.xy_scalar))", name="msg", tags="C08 C09 C06")
+    c.ensures("spec.entropy_forbidden(result.entropy_f)", name="no-entropy-source", tags="C11 C07")
+    c.ensures("spec.entropy_calls() == 0", name="no-entropy", tags="C11", on="both")
+    c.ensures("classof(result) == '%s'" % K, name="class", tags="C09")
+    c.canary("result.xy_scalar == spec.b2s(g, spec.unhex(d['xy_scalar'])) + 1")
